@@ -200,6 +200,15 @@ def oracle(item, d, claims, classes, ctx):
                 if r['op'] != 'call': continue
                 if any(r2 is not r and r2['args'] is r['args'] and r2['t_end'] <= r['t_start'] for r2 in allcalls):
                     add('C03', 'once any call that stored the result has returned, a call that starts later with the same arguments never runs the body', len(r['execs']) == 0)
+        # the setup calls stored their results and returned before the concurrent phase began
+        if not (it['result'] or it['invalidate_on'] or it['cache_if'] or it['ttl'] or it['max_memory']):
+            others = [r2 for rs2 in d['rs'] for r2 in rs2 if r2['op'] == 'call' and not any(r2['args'] is f_ for f_ in d['fills'])]
+            inval = any(op[0].startswith('inv') for pr in item['progs'] for op in pr)
+            if not inval and (it['limit'] is None or not others):
+                for r in rs:
+                    if r['op'] == 'call' and any(r['args'] is f_ for f_ in d['fills']):
+                        add('C03', 'a call whose arguments were stored by a call that returned before the concurrent phase never runs the body', len(r['execs']) == 0)
+                        add('C14', 'a value stored by one thread is served to every other thread, also while other calls are in flight', len(r['execs']) == 0)
         # a call that starts after a call of the same thread with the same arguments has stored and returned is served from the cache
         if not (it['result'] or it['invalidate_on'] or it['cache_if'] or it['ttl'] or it['max_memory'] or random_limit):
             seen = []
